@@ -414,19 +414,19 @@ Theorem engines_agree subs c body :
 Proof. intros Hc H Hne. split; [apply numpy_spec|apply normal_spec]; assumption. Qed.
 
 (* ---- the sniffed column count ------------------------------------------------------------- *)
-Lemma inspect_loop_cons raw rest i subs hyph counts :
-  inspect_loop (raw :: rest) i subs hyph counts =
+Lemma inspect_loop_cons d raw rest i subs hyph counts :
+  inspect_loop d (raw :: rest) i subs hyph counts =
   let line := strip raw in
-  if negb (nonempty line) then inspect_loop rest (S i) subs hyph counts
+  if negb (nonempty line) then inspect_loop d rest (S i) subs hyph counts
   else
     let hyph' := if in_str ch_minus line then S hyph else hyph in
-    if startswith [ch_hash] line then inspect_loop rest (S i) subs hyph' counts
+    if startswith [ch_hash] line then inspect_loop d rest (S i) subs hyph' counts
     else
-      let n := List.length (re_findall_joined rx_sow (apply_subs subs line)) in
+      let n := List.length (split_line d (apply_subs subs line)) in
       let counts' := n :: counts in
       match rest with
       | [] => (hyph', rev counts')
-      | _ => if Nat.leb 20 i then (hyph', rev counts') else inspect_loop rest (S i) subs hyph' counts'
+      | _ => if Nat.leb 20 i then (hyph', rev counts') else inspect_loop d rest (S i) subs hyph' counts'
       end.
 Proof. cbn [inspect_loop]. destruct (strip raw); reflexivity. Qed.
 
@@ -435,7 +435,7 @@ Proof. intros E. unfold data_rows. cbn [map filter]. rewrite E. reflexivity. Qed
 
 Lemma inspect_loop_dom c subs : forall body i hyph counts,
   Forall (fun raw => dom2_lineb c raw = true) body ->
-  exists hyph' k, inspect_loop body i subs hyph counts = (hyph', rev counts ++ repeat c k) /\
+  exists hyph' k, inspect_loop DSpace body i subs hyph counts = (hyph', rev counts ++ repeat c k) /\
                   (data_rows body <> [] -> (0 < k)%nat).
 Proof.
   clear fstr. induction body as [|raw rest IH]; intros i hyph counts H.
@@ -449,11 +449,11 @@ Proof.
       rewrite E. rewrite (data_rows_cons_nil _ _ T).
       destruct (negb (nonempty (strip raw))); apply IH; exact Hrest.
     + rewrite E.
-      assert (Hn : List.length (re_findall_joined rx_sow (apply_subs subs (strip raw))) = c).
+      assert (Hn : List.length (split_line DSpace (apply_subs subs (strip raw))) = c).
       { unfold is_data_lineb in D. repeat (apply andb_true_iff in D as [D ?]).
         repeat match goal with Hn : negb _ = true |- _ => apply negb_true_iff in Hn end.
         rewrite apply_subs_id by (intros [| |]; cbn [sub_nomatchb]; assumption).
-        rewrite sow_inspect_is_split by (apply in_str_strip_false; assumption).
+        cbn [split_line]. rewrite sow_is_split by (apply in_str_strip_false; assumption).
         apply Nat.eqb_eq. assumption. }
       rewrite Hn.
       assert (Hne : nonempty (strip raw) = true).
@@ -480,7 +480,7 @@ Qed.
 (* inspect_data_section returns the common token count as soon as the body has a data line *)
 Theorem sniff_spec subs c body :
   Forall (fun raw => dom2_lineb c raw = true) body -> data_rows body <> [] ->
-  fst (inspect body subs) = Some c.
+  fst (inspect DSpace body subs) = Some c.
 Proof using fhex.
   intros H Hne. unfold inspect.
   destruct (inspect_loop_dom c subs body 0%nat 0%nat [] H) as (h & k & E & Hk).
@@ -489,14 +489,14 @@ Qed.
 
 Theorem sniff_twice_spec subs c body :
   Forall (fun raw => dom2_lineb c raw = true) body -> data_rows body <> [] ->
-  fst (inspect_twice body subs) = Some c.
+  fst (inspect_twice DSpace body subs) = Some c.
 Proof using fhex.
   intros H Hne. unfold inspect_twice.
   pose proof (sniff_spec subs c body H Hne) as E1.
-  destruct (inspect body subs) as [n rec]. cbn [fst] in E1. subst n.
+  destruct (inspect DSpace body subs) as [n rec]. cbn [fst] in E1. subst n.
   destruct (negb (list_rsub_eqb rec subs)); [|reflexivity].
   pose proof (sniff_spec rec c body H Hne) as E2.
-  destruct (inspect body rec) as [n2 rec2]. cbn [fst] in E2. subst n2. reflexivity.
+  destruct (inspect DSpace body rec) as [n2 rec2]. cbn [fst] in E2. subst n2. reflexivity.
 Qed.
 
 End Engines.
